@@ -39,7 +39,7 @@
 //
 // Observation (one line):
 //
-//	run=<ok|err|followups-<got>-of-<want>> conn=<carrying>/<accepted>/<probes>[/<follow-ups of redirects>] cl=<d0>/<b0>,<d1>/<b1>,.. n=<records> {| <srv> <tls> method uri host body nh {k nv {v}*nv}*nh}*   (records sorted)
+//	run=<ok|err|followups-<got>-of-<want>> conn=<carrying>/<accepted>/<probes>[/<follow-ups of redirects>] cl=<d0>/<b0>,<d1>/<b1>,.. [tun=<CONNECTs>/<connections at the recording servers>/<CONNECTs with a foreign authority>/<non-CONNECT>] n=<records> {| <srv> <tls> method uri host body nh {k nv {v}*nv}*nh}*   (records sorted)
 //	  srv  = T<k> (arrived at the target of pool k) | D (arrived at the decoy)
 //	  conn = connections that carried requests to the targets / connections the targets accepted / reachability probes of
 //	         PreResolveTargetAddr among the accepted ones (one per pool with a host-name target that is up at configuration time).
@@ -689,7 +689,10 @@ func runCaseOnce(line string) string {
 		_, ports[k], _ = net.SplitHostPort(srv.Listener.Addr().String())
 		servers[k] = srv
 	}
-	if c.late {
+	// connect gun: the gun's target is a tunnel front before each recording server (tunnel.go); the recording servers are
+	// then always up and it is the front that is down while the configuration is read
+	lateT := c.late && !c.opts.connect
+	if lateT {
 		// the targets are DOWN while the configuration is read (pre-resolve fails) and come up before the run;
 		// all ports are reserved first so that no two pools get the same one
 		for _, srv := range servers {
@@ -698,7 +701,7 @@ func runCaseOnce(line string) string {
 	}
 	start := func(k int) bool {
 		srv := servers[k]
-		if c.late {
+		if lateT {
 			var l net.Listener
 			var err error
 			for i := 0; i < 50; i++ {
@@ -719,9 +722,30 @@ func runCaseOnce(line string) string {
 		}
 		return true
 	}
-	if !c.late {
+	if !lateT {
 		for k := range servers {
 			start(k)
+		}
+	}
+	var fronts []*tunnelFront
+	defer func() {
+		for _, f := range fronts {
+			f.close()
+		}
+	}()
+	if c.opts.connect {
+		for k := range servers {
+			f, err := newTunnelFront(servers[k].Listener.Addr().String(), c.opts.connectSSL)
+			if err != nil {
+				return "run=harness-port-lost"
+			}
+			fronts = append(fronts, f)
+			ports[k] = f.port // what the gun is pointed at
+			if c.late {
+				f.down()
+			} else {
+				f.start()
+			}
 		}
 	}
 	rps := []any{map[string]any{"type": "once", "times": total}}
@@ -765,9 +789,16 @@ func runCaseOnce(line string) string {
 	if err := config.DecodeAndValidate(map[string]any{"pools": pools}, conf); err != nil {
 		return "run=conferr:" + vh.HexS(err.Error())
 	}
-	if c.late {
+	if lateT {
 		for k := range servers {
 			if !start(k) {
+				return "run=harness-port-lost"
+			}
+		}
+	}
+	if c.late && c.opts.connect {
+		for _, f := range fronts {
+			if !f.start() {
 				return "run=harness-port-lost"
 			}
 		}
@@ -797,6 +828,29 @@ func runCaseOnce(line string) string {
 	cancel()
 	eng.Wait()
 
+	if c.opts.connect {
+		// quiescence: a connection the transport dialled on speculation (shared clients) may still be in its CONNECT handshake,
+		// or on its way from the front to the recording server, when the run ends; wait (bounded) until every accepted
+		// connection beyond the probes has sent its CONNECT and every tunnel has arrived behind
+		wantProbe := 0
+		if c.tgt == "name" && !c.late && !c.opts.noDNSCache {
+			wantProbe = c.pools
+		}
+		for i := 0; i < 100; i++ {
+			acc, cn := 0, 0
+			for _, f := range fronts {
+				a, c2, _, _ := f.counts()
+				acc, cn = acc+a, cn+c2
+			}
+			rec.mu.Lock()
+			behind := rec.newc
+			rec.mu.Unlock()
+			if acc-wantProbe == cn && cn == behind {
+				break
+			}
+			time.Sleep(20 * time.Millisecond)
+		}
+	}
 	rec.mu.Lock()
 	defer rec.mu.Unlock()
 	var lines []string
@@ -851,12 +905,25 @@ func runCaseOnce(line string) string {
 		cls = append(cls, fmt.Sprintf("%d/%d", d, b))
 	}
 	gunsMu.Unlock()
-	conn := fmt.Sprintf("%d/%d/%d", len(rec.conns), rec.newc, probe)
+	accepted, tun := rec.newc, ""
+	if c.opts.connect {
+		// the gun's target is the front: it accepts the probe and one connection per tunnel; the recording servers behind see
+		// one connection per tunnel.  tun = CONNECT requests / connections at the recording servers / CONNECTs whose authority
+		// is not the gun's target / connections that did not start with a CONNECT
+		accepted = 0
+		var cn, bad, non int
+		for _, f := range fronts {
+			a, c2, b, n := f.counts()
+			accepted, cn, bad, non = accepted+a, cn+c2, bad+b, non+n
+		}
+		tun = fmt.Sprintf(" tun=%d/%d/%d/%d", cn, rec.newc, bad, non)
+	}
+	conn := fmt.Sprintf("%d/%d/%d", len(rec.conns), accepted, probe)
 	if rec.follow > 0 {
 		// follow-ups of redirects are requests too (without keep-alives each has its own connection): a fourth number
 		conn += fmt.Sprintf("/%d", rec.follow)
 	}
-	out := fmt.Sprintf("run=%s conn=%s cl=%s n=%d", run, conn, strings.Join(cls, ","), len(lines))
+	out := fmt.Sprintf("run=%s conn=%s cl=%s%s n=%d", run, conn, strings.Join(cls, ","), tun, len(lines))
 	for _, l := range lines {
 		out += " | " + l
 	}
@@ -910,6 +977,9 @@ func main() {
 		// cases with pauses between the requests take seconds each: they run concurrently with the sequential rest
 		isPaused := func(c string) bool {
 			f := strings.SplitN(c, " ", 12)
+			if f[0] == "hist" {
+				return strings.Contains(c, " W") // scripted histories with waits (self-contained: own target, own guns)
+			}
 			return len(f) > 10 && f[0] == "wire" && f[10] != "0"
 		}
 		var wg sync.WaitGroup
